@@ -37,7 +37,7 @@ def cases(draw):
     reqs = draw(st.lists(st.fixed_dictionaries({"base": st.sampled_from(["root-rw", "root-rw", "root-ro", "root-ro", "S-ro", "F-ro", "root-verify", "F-verify"]),
                                                  "path": st.sampled_from([[], ["sub-rw"], ["sub-ro"], ["sub-ro"], ["file-rw"], ["file-ro"], ["file-ro"], ["sub-ro", "deep"], ["sub-rw", "deep"]]),
                                                  "op": st.sampled_from(DIR_OPS + FILE_OPS + READS + READS)}), min_size=1, max_size=6))
-    return {"fmt": draw(st.sampled_from(["sdmf", "mdmf"])), "order": draw(st.sampled_from(["rw-first", "ro-first"])), "reqs": reqs}
+    return {"hsalt": draw(st.integers(0, 15)), "fmt": draw(st.sampled_from(["sdmf", "mdmf"])), "order": draw(st.sampled_from(["rw-first", "ro-first"])), "reqs": reqs}
 
 
 def run_shard(spec, ctx):
